@@ -45,7 +45,7 @@ P = {
  "C04": (True, "conc", "quiescence monitor: bound on the weights of All() after one CleanUp, Overflow events of zero-weight values, VerifAudit weightedSize <= maximum; trials with expiry on a worker-driven manual clock and with a stalled executor (full write buffer); race detector; size-eviction variant of the reader-versus-sweep schedules judged by the bound after SetMaximum(0)",
    "Held on the explored concurrent trials (inserts, weight-changing updates, reads, invalidations, SetMaximum; sync / async / default executors; delays between table update and write-buffer publish).",
    "Judged only after all calls returned, the executor is idle and exactly one CleanUp ran.", "4/C04"),
- "C05": (True, "conc", "quiescence monitor: view equalities (WeightedSize, EstimatedSize, Hottest/Coldest vs All) + white-box structural audit of deques, weight totals and timer wheel through VerifAudit; race detector; late-extension scenarios; the same structural audit in the sequential engine after every CleanUp",
+ "C05": (True, "conc", "quiescence monitor: view equalities (WeightedSize, EstimatedSize, Hottest/Coldest vs All) + white-box structural audit of deques, weight totals and timer wheel through VerifAudit; race detector; late-extension scenarios; the same structural audit in the sequential engine after every CleanUp; shortened-deadline scenarios (SetExpiresAfter between two CleanUps with no dropped read event: the views must agree a tick after the new deadlines)",
    "Held on the explored concurrent trials: every table node is alive and linked exactly once in the queue its flag names, per-queue weight sums equal the running totals, nothing dead is linked.",
    "The audit reads internal state through the verif-tag export under the eviction lock; schedules are sampled.", "4/C05"),
  "C06": (True, "conc", "offline checker over both deletion-handler logs: exactly-once, conservation (written = present + reported), handler agreement, cause explanation, per-key order along the install chain (concurrent trials with a size bound, not-found loaders and a stalled-executor variant; phased trials with expiry) + exact per-operation event multiset in the sequential engine incl. the queued-executor mode; race detector; late-extension scenarios (return value, atomic cause and deferred cause must agree)",
